@@ -251,11 +251,32 @@ Proof.
   rewrite <- C_absorb, Nat.div_mul by lia. rewrite IH by lia. f_equal; lia.
 Qed.
 
+Lemma C_sym : forall n k, k <= n -> C n k = C n (n - k).
+Proof.
+  induction n as [|n IH]; intros k Hk.
+  - replace k with 0 by lia. reflexivity.
+  - destruct k as [|k].
+    + rewrite Nat.sub_0_r, C_0_r, C_diag. reflexivity.
+    + destruct (Nat.eq_dec k n) as [->|Hne].
+      * rewrite Nat.sub_diag, C_0_r, C_diag. reflexivity.
+      * replace (S n - S k) with (S (n - S k)) by lia. rewrite !C_pascal.
+        rewrite (IH k) by lia. rewrite (IH (S k)) by lia. replace (n - k) with (S (n - S k)) by lia. lia.
+Qed.
+Lemma C_step_mono n i : 2 * S i <= n -> C n i <= C n (S i).
+Proof. intros H. pose proof (C_absorb n i) as Ha. assert (S i <= n - i) by lia. nia. Qed.
+Lemma C_mono_half n : forall j i, i <= j -> 2 * j <= n -> C n i <= C n j.
+Proof.
+  induction j as [|j IH]; intros i Hi Hj; [replace i with 0 by lia; lia|].
+  destruct (Nat.eq_dec i (S j)) as [->|Hne]; [lia|].
+  apply Nat.le_trans with (C n j); [apply IH; lia|apply C_step_mono; lia].
+Qed.
+
 Theorem binom_exact n k : binom n k = C n k.
 Proof.
   unfold binom. destruct (n <? k) eqn:E.
   - apply Nat.ltb_lt in E. symmetry. apply C_lt, E.
-  - apply Nat.ltb_ge in E. rewrite <- (C_0_r n). apply (binom_loop_spec n k 0). lia.
+  - apply Nat.ltb_ge in E. rewrite <- (C_0_r n) at 1. rewrite (binom_loop_spec n (Nat.min k (n - k)) 0) by lia. simpl.
+    destruct (Nat.min_spec k (n - k)) as [[_ ->]|[_ ->]]; [reflexivity|symmetry; apply C_sym; exact E].
 Qed.
 
 (* --- the iterator state machine (it_next / it_hint / it_run) against `selections` --- *)
@@ -344,29 +365,44 @@ Proof.
   pose proof (IH k). pose proof (IH (S k)). rewrite Nat2N.inj_succ, N.pow_succ_r'. lia.
 Qed.
 
-Lemma binom_loop64_spec n : n <= 57 -> forall steps i, i + steps <= n ->
-  binom_loop64 (N.of_nat n) (N.of_nat i) steps (N.of_nat (C n i)) = Some (N.of_nat (C n (i + steps))).
+(* the machine loop: never an overflow of the 128-bit product, and the result is min (C n k) usize::MAX -- for ALL n < 2^64 and all k *)
+Lemma binom_loop64_spec n : (N.of_nat n < 18446744073709551616)%N -> forall steps i, 2 * (i + steps) <= n -> (N.of_nat (C n i) <= MAXU)%N ->
+  binom_loop64 (N.of_nat n) (N.of_nat i) steps (N.of_nat (C n i)) = Some (N.min (N.of_nat (C n (i + steps))) MAXU).
 Proof.
-  intros Hn. induction steps as [|s IH]; intros i H; cbn [binom_loop64]; [replace (i + 0) with i by lia; reflexivity|].
-  assert (Hlt : (N.of_nat (C n i) * (N.of_nat n - N.of_nat i) <? 18446744073709551616)%N = true).
-  { apply N.ltb_lt. pose proof (C_le_pow2 n i) as Hc.
-    assert (2 ^ N.of_nat n <= 2 ^ 57)%N by (apply N.pow_le_mono_r; lia).
-    assert (N.of_nat n - N.of_nat i <= 57)%N by lia.
-    apply N.le_lt_trans with (2 ^ 57 * 57)%N; [apply N.mul_le_mono; lia|]. reflexivity. }
-  rewrite Hlt.
-  replace (N.of_nat (C n i) * (N.of_nat n - N.of_nat i))%N with (N.of_nat (C n (S i)) * N.of_nat (S i))%N.
-  2:{ rewrite <- Nat2N.inj_mul, C_absorb. rewrite Nat2N.inj_mul. f_equal. lia. }
-  replace (N.succ (N.of_nat i)) with (N.of_nat (S i)) by lia.
-  rewrite N.div_mul by lia.
-  rewrite (IH (S i)) by lia. replace (S i + s) with (i + S s) by lia. reflexivity.
+  intros Hn. induction steps as [|s IH]; intros i H Hres; cbn [binom_loop64].
+  - replace (i + 0) with i by lia. rewrite N.min_l by exact Hres. reflexivity.
+  - assert (Hlt : (N.of_nat (C n i) * (N.of_nat n - N.of_nat i) <? 340282366920938463463374607431768211456)%N = true).
+    { apply N.ltb_lt. unfold MAXU in Hres.
+      apply N.le_lt_trans with (18446744073709551615 * 18446744073709551615)%N; [apply N.mul_le_mono; lia|reflexivity]. }
+    rewrite Hlt.
+    replace (N.of_nat (C n i) * (N.of_nat n - N.of_nat i))%N with (N.of_nat (C n (S i)) * N.of_nat (S i))%N.
+    2:{ rewrite <- Nat2N.inj_mul, C_absorb. rewrite Nat2N.inj_mul. f_equal. lia. }
+    replace (N.succ (N.of_nat i)) with (N.of_nat (S i)) by lia.
+    rewrite N.div_mul by lia.
+    destruct (MAXU <? N.of_nat (C n (S i)))%N eqn:Es.
+    + apply N.ltb_lt in Es. f_equal. symmetry. apply N.min_r.
+      pose proof (C_mono_half n (i + S s) (S i) ltac:(lia) ltac:(lia)). lia.
+    + apply N.ltb_ge in Es. rewrite (IH (S i)) by (try lia; exact Es). replace (S i + s) with (i + S s) by lia. reflexivity.
 Qed.
 
-Theorem binom64_exact n k : n <= 57 -> binom64 (N.of_nat n) (N.of_nat k) = Some (N.of_nat (C n k)).
+Theorem binom64_spec n k : (N.of_nat n < 18446744073709551616)%N ->
+  binom64 (N.of_nat n) (N.of_nat k) = Some (N.min (N.of_nat (C n k)) MAXU).
 Proof.
   intros Hn. unfold binom64. destruct (N.of_nat n <? N.of_nat k)%N eqn:E.
   - apply N.ltb_lt in E. rewrite C_lt by lia. reflexivity.
-  - apply N.ltb_ge in E. rewrite Nat2N.id. change 1%N with (N.of_nat 1). rewrite <- (C_0_r n).
-    change 0%N with (N.of_nat 0). apply (binom_loop64_spec n Hn k 0). lia.
+  - apply N.ltb_ge in E.
+    replace (N.to_nat (N.min (N.of_nat k) (N.of_nat n - N.of_nat k))) with (Nat.min k (n - k)) by lia.
+    change 1%N with (N.of_nat 1). rewrite <- (C_0_r n) at 1. change 0%N with (N.of_nat 0).
+    rewrite (binom_loop64_spec n Hn (Nat.min k (n - k)) 0) by (try lia; rewrite C_0_r; unfold MAXU; lia). simpl.
+    destruct (Nat.min_spec k (n - k)) as [[_ ->]|[_ ->]]; [reflexivity|]. rewrite <- C_sym by lia. reflexivity.
+Qed.
+
+(* the earlier statement (exact up to n = 57, where every C n k is below 2^57) is a special case *)
+Theorem binom64_exact n k : n <= 57 -> binom64 (N.of_nat n) (N.of_nat k) = Some (N.of_nat (C n k)).
+Proof.
+  intros Hn. rewrite binom64_spec by lia. f_equal. apply N.min_l. pose proof (C_le_pow2 n k) as Hc.
+  assert (2 ^ N.of_nat n <= 2 ^ 57)%N by (apply N.pow_le_mono_r; lia). unfold MAXU.
+  apply N.le_trans with (2 ^ 57)%N; [lia|]. vm_compute. discriminate.
 Qed.
 
 (* --- the binary-arithmetic variant of the state machine is the image of it_run under N.of_nat --- *)
@@ -410,3 +446,6 @@ Proof.
     + rewrite IH. destruct (it_run f n k st') as [hs vs]. cbn [fst snd map]. rewrite it_hintN_spec. reflexivity.
     + cbn [fst snd map]. rewrite !it_hintN_spec. reflexivity.
 Qed.
+
+Theorem selections_fast_eq n k : selections_fast n k = selections n k.
+Proof. unfold selections_fast, selections. rewrite binomN_spec, Nat2N.id, binom_exact. reflexivity. Qed.
